@@ -27,11 +27,11 @@ Theorem C03_or_prefers_the_higher_class : forall a b, class (or a b) = N.max (cl
 Proof. exact or_class. Qed.
 
 (* 3. load_from_source as printed equals the model on every extension list of length <= 3 and
-      every outcome per extension (bounded, exhaustive: 85 shapes x 2 default behaviours). *)
+      every outcome per extension (bounded, exhaustive: 156 shapes x 2 default behaviours; an interrupted read is an I/O error like any other: it is reported, not retried). *)
 Theorem C03_code_load_from_source_is_model_up_to_3_extensions :
   forallb (fun atts => outcome_eqb (gen_load atts false) (ref_load atts false)
                        && outcome_eqb (gen_load atts true) (ref_load atts true)) all_cases = true
-  /\ List.length all_cases = 85%nat.
+  /\ List.length all_cases = 156%nat.
 Proof. exact load_from_source_bounded_tie. Qed.
 
 (* 4. For EVERY extension list: the first extension whose file can be read and decoded wins, with
